@@ -23,7 +23,7 @@ RULE = ("one run = graph + 1-4 groups built from intended walks/sets in a random
         "lines, delivered in a scheduled order; distinct = distinct (style, walk shape, order) digests")
 PROBES = ["style_segments", "style_edges", "style_alternating", "style_mixed", "nested_plus", "nested_minus",
           "multiline_o", "multiline_u", "group_before_items", "reversed_edge_traversal", "noncontiguous",
-          "ambiguous", "single_edge_item", "set_with_path", "set_nested", "walk_len_ge4"]
+          "ambiguous", "single_edge_item", "set_with_path", "set_nested", "walk_len_ge4", "contradicting_tags"]
 
 
 def edge_line(eid, a, oa, b, ob, seglen, rng):
@@ -233,6 +233,7 @@ def gen(streams, tier, i):
             groups.append({"rt": "U", "name": name, "expect": "set", "items": items})
     # split over 1-3 lines with the same identifier
     glines = []
+    conflict = None
     for rt, name, items, tags in gl:
         nparts = wr.choice([1, 1, 2, 3])
         nparts = min(nparts, len(items))
@@ -240,6 +241,17 @@ def gen(streams, tier, i):
         parts = [items[a:b] for a, b in zip([0] + cuts, cuts + [len(items)])]
         for pi, part in enumerate(parts):
             t = [tags[pi]] if pi < len(tags) and nparts > 1 else (tags if pi == 0 else [])
+            if pi == 1 and tags and wr.random() < 0.35:
+                # the second line repeats a tag of the first: with the same value (ignored) or a contradicting one
+                n_, t_, v_ = tags[0].split(":", 2)
+                if wr.random() < 0.5:
+                    t = t + [tags[0]] if tags[0] not in t else t
+                elif conflict is None:
+                    other = {"i": ["0", "7"], "Z": ["0", "zz"], "A": ["0", "z"], "f": ["0.0", "2.5"], "H": ["00", "FF"],
+                             "J": ["{}", "[1]"], "B": ["c,0", "c,5"]}[t_]
+                    newv = wr.choice([x for x in other if x != v_])
+                    t = [x for x in t if not x.startswith(n_ + ":")] + ["%s:%s:%s" % (n_, t_, newv)]
+                    conflict = name
             glines.append("\t".join([rt, name, " ".join(part)] + t))
     all_lines = lines + glines
     sr = streams.get("schedule")
@@ -248,7 +260,7 @@ def gen(streams, tier, i):
     from .c03 import keep_o_order
     perm = [all_lines.index(x) for x in order] if len(set(all_lines)) == len(all_lines) else list(range(len(all_lines)))
     perm = keep_o_order(all_lines, perm)
-    return {"cfg": {"vlevel": cfg.choice([0, 1, 1, 2, 3]), "order": mode},
+    return {"cfg": {"vlevel": cfg.choice([0, 1, 1, 2, 3]), "order": mode, "conflict": conflict},
             "lines": all_lines, "edges": [list(e) for e in edges], "groups": groups,
             "ops": [{"op": "order", "perm": perm}]}
 
@@ -297,6 +309,19 @@ def run(scn, st):
             st.count("probe.group_before_items")
         w = World(st)
         o = w.construct("incremental", ordered, vlevel=vlevel)
+        if scn["cfg"].get("conflict"):
+            # two lines of one group give the same tag different values: the definition is contradictory
+            st.count("probe.contradicting_tags")
+            st.count("oracle.contradicting_tags")
+            if o.ok:
+                raise core.Violation("contradicting-tags-merged",
+                                     "group %s: lines %r give one tag two values but were merged silently" %
+                                     (scn["cfg"]["conflict"], [x for x in ordered if x.split("\t")[1:2] == [scn["cfg"]["conflict"]]]),
+                                     rt="group")
+            if o.excname != "NotUniqueError":
+                raise core.Violation("contradicting-tags-wrong-error", "contradicting group tags raised %s" % o.excname,
+                                     exc=o.excname)
+            continue
         if not o.ok:
             raise core.Violation("valid-rejected", "document rejected in order %r: %s: %s" %
                                  (perm, o.excname, str(o.exc)[:300]), exc=o.excname, frame=o.frame)
@@ -314,7 +339,7 @@ def run(scn, st):
                 st.count("probe.multiline_" + grp["rt"].lower())
             arr = [lines[i].split("\t") for i in perm if lines[i].split("\t")[0] == grp["rt"] and lines[i].split("\t")[1] == name]
             want_items = [x for d in arr for x in d[2].split(" ")]
-            want_tags = sorted(t for d in arr for t in d[3:])
+            want_tags = sorted(set(t for d in arr for t in d[3:]))
             got = ob.line_text(l).split("\t")
             got_items = got[2].split(" ")
             if grp["rt"] == "U":
